@@ -5,6 +5,7 @@ from ..ordered import same_ordered
 from ..wire import parse_ordered, from_tagged, Obj
 from . import c04
 
+HARNESS_FILES = gt.harness_files
 ID = "C16"
 N_QUICK = 3000
 N_THOROUGH = 40000
@@ -20,30 +21,62 @@ RULE = ("types as in C04 plus recursive and mutually recursive declared types, u
 ASSUMPTIONS = ["JSONSCHEMAGODEBUG unset (the typeschemasnull=1 setting is exercised by the thorough tier in a child process)"]
 
 
+TS_POOL = [Obj([("type", "string"), ("format", "x")]), Obj([("type", ["integer", "null"])]), Obj([("enum", ["a"])]),
+           Obj([("type", "object"), ("properties", Obj([("q", Obj([("type", "boolean")]))]))]),
+           # nested schemas under keywords other than properties / items / additionalProperties
+           Obj([("oneOf", [Obj([("type", "string")]), Obj([("type", "integer")])])]),
+           Obj([("$defs", Obj([("d", Obj([("type", "null")]))])), ("type", "string")]),
+           Obj([("not", Obj([("const", "no")]))]), Obj([("anyOf", [Obj([("minimum", 0)]), True])]),
+           Obj([("if", Obj([("type", "string")])), ("then", Obj([("minLength", 1)]))]),
+           Obj([("type", "array"), ("prefixItems", [Obj([("type", "string")])]), ("contains", Obj())]),
+           Obj([("allOf", [Obj([("patternProperties", Obj([("^x", Obj([("type", "integer")]))]))])])]), Obj()]
+# an override for an embedded struct may only have type object and properties
+TS_EMBED_POOL = [Obj([("type", "object"), ("properties", Obj([("q", Obj([("type", "boolean")]))]))]),
+                 Obj([("type", "object"), ("properties", Obj([("ov2", Obj([("type", "string")])), ("ov1", Obj([("oneOf", [True, Obj([("type", "null")])])]))]))]),
+                 Obj([("type", "object")]), Obj([("type", "string")]),
+                 Obj([("type", "object"), ("properties", Obj([("q", True)])), ("required", ["q"])])]
+
+
 def gen(rng, tier, n):
     raw = []
     while len(raw) < n:
         used = set()
         t = gt.gen_type(rng, rng.choice([1, 2, 3, 4 if tier == "thorough" else 3]), used, allow_rec=0.06, allow_bad=0.06)
         opts = {"ignore": rng.random() < 0.3}
-        if rng.random() < 0.15:
-            nm = rng.choice(["Inner", "MyInt", "time.Time", "Twice"])
-            sch = rng.choice([Obj([("type", "string"), ("format", "x")]), Obj([("type", ["integer", "null"])]), Obj([("enum", ["a"])]),
-                              Obj([("type", "object"), ("properties", Obj([("q", Obj([("type", "boolean")]))]))])])
-            opts["typeSchemas"] = [{"name": nm, "schema": sch}]
-        raw.append((t, opts, used))
+        pre = []
+        r = rng.random()
+        if r < 0.15:
+            nm = rng.choice(["Inner", "MyInt", "time.Time", "Twice"] + gt.GEN["names"][:6])
+            opts["typeSchemas"] = [{"name": nm, "schema": rng.choice(TS_POOL)}]
+            if rng.random() < 0.5:
+                # make sure the overridden type occurs, preferably more than once
+                t = rng.choice([{"k": "struct", "fields": [{"name": "P", "tag": 'json:"p"', "t": {"k": "named", "name": nm}},
+                                                             {"name": "Q", "tag": 'json:"q"', "t": {"k": "slice", "e": {"k": "named", "name": nm}}}]},
+                                {"k": "map", "key": "string", "e": {"k": "named", "name": nm}}, {"k": "named", "name": "Twice"}])
+        elif r < 0.3 and gt.GEN["embedding"]:
+            # a TypeSchemas override for a type that is embedded (directly or two levels down) in the type under inference
+            outer = rng.choice(sorted(gt.GEN["embedding"]))
+            inner = rng.choice(gt.embeds_closure(outer))
+            t = {"k": "named", "name": outer} if rng.random() < 0.7 else {"k": "slice", "e": {"k": "named", "name": outer}}
+            used.add(outer)
+            opts["typeSchemas"] = [{"name": inner, "schema": rng.choice(TS_EMBED_POOL)}]
+        elif r < 0.4:
+            # history: the same type was inferred earlier under other options (TypeSchemas, IgnoreInvalidTypes)
+            nm = rng.choice(["Inner", "MyInt", "MyString", "time.Time"] + gt.GEN["names"][:6])
+            pre = [{"type": t, "opts": {"ignore": rng.random() < 0.5, "typeSchemas": [{"name": nm, "schema": rng.choice(TS_POOL)}]}}]
+        raw.append((t, opts, used, pre))
     # the structure of every type as reflect shows it (input of the model)
-    tops = [{"id": i, "op": "typeinfo", "args": {"type": t}} for i, (t, _, _) in enumerate(raw)]
-    names = sorted({ts["name"] for _, o, _ in raw for ts in o.get("typeSchemas", [])})
+    tops = [{"id": i, "op": "typeinfo", "args": {"type": t}} for i, (t, _, _, _) in enumerate(raw)]
+    names = sorted({ts["name"] for _, o, _, _ in raw for ts in o.get("typeSchemas", [])})
     nops = [{"id": len(tops) + i, "op": "typeinfo", "args": {"type": {"k": "named", "name": nm}}} for i, nm in enumerate(names)]
     info = core.eval_ops(tops + nops, core.CTX["vh"], "go", shards=4, env=core.GOENV)
     tname = {nm: info[len(tops) + i]["go"]["structure"].get("name") for i, nm in enumerate(names)}
     ops = []
-    for i, (t, opts, used) in enumerate(raw):
+    for i, (t, opts, used, pre) in enumerate(raw):
         st = info[i]["go"].get("structure")
         for ts in opts.get("typeSchemas", []):
             ts["tname"] = tname[ts["name"]]
-        ops.append({"op": "infer", "args": {"type": t, "structure": st, "opts": opts},
+        ops.append({"op": "infer", "args": dict({"type": t, "structure": st, "opts": opts}, **({"pre": pre} if pre else {})),
                     "meta": {"used": sorted(used), "nt": t["k"] in ("struct", "slice", "array", "map", "ptr", "named")}})
     return ops
 
@@ -73,12 +106,14 @@ def judge(o, go, m):
     if o["args"]["type"].get("k") in ("func", "chan", "complex128") or (o["args"]["type"].get("k") == "map" and o["args"]["type"].get("key") == "int"):
         if go.get("outcome") == "ok":
             return "violation", "an unsupported kind was accepted: %s -> %s" % (go.get("gotype"), go.get("schema"))
+    if go.get("history_free") is False:
+        return "violation", "ForType(%s) with plain options gives another schema after earlier calls with other options (not a function of its arguments)" % go.get("gotype")
     if go.get("outcome") == "ok":
         if not go.get("determ"):
             return "violation", "two calls of ForType(%s) marshal differently" % go.get("gotype")
         if go.get("shared"):
             return "violation", "results of ForType(%s) share %d Schema object(s) with each other or with TypeSchemas" % (go.get("gotype"), go["shared"])
-        if not go.get("resolves") and not opts.get("typeSchemas"):
+        if not go.get("resolves") and (not opts.get("typeSchemas") or "not form a tree" in str(go.get("resolve_detail"))):
             if k:
                 return "known:" + k, str(go.get("resolve_detail"))
             return "violation", "Resolve refuses the schema inferred for %s: %s" % (go.get("gotype"), go.get("resolve_detail"))
@@ -92,9 +127,17 @@ def judge(o, go, m):
             elif not set(go.get("required") or []) <= set(go.get("zero_keys") or []) or len(set(go.get("required") or [])) != len(go.get("required") or []):
                 bad = "required %r, but the zero value is emitted with keys %r" % (go.get("required"), go.get("zero_keys"))
             if bad:
+                if bad.startswith("required") and set(used) & gt.GEN["redeclared"] and order == full and sorted(order) == go.get("properties") \
+                        and set(go.get("required") or []) <= set(go.get("zero_keys") or []):
+                    return "known:D14", bad      # the duplicate entry in `required` of a redeclared JSON name: the listed symptom, nothing else
                 if k:
                     return "known:" + k, bad
                 return "violation", "%s: %s" % (go.get("gotype"), bad)
+        if go.get("rest_keys") is not None and not (feats & {"string-option", "ptr-marshaler-by-value", "bigint", "unsupported", "badkey"}) and not k:
+            order, rest = go.get("order") or [], go.get("rest_keys") or []
+            if [x for x in order if x in rest] != rest or not set(rest) <= set(go.get("properties") or []):
+                return "violation", "%s with a TypeSchemas override of an embedded type: properties %r (order %r) lose fields that are not promoted " \
+                                    "through the overridden type: %r" % (go.get("gotype"), go.get("properties"), order, rest)
     # correspondence with the model
     if mo.get("outcome") in (None, "unmodelled"):
         return "agree", ""
